@@ -25,7 +25,7 @@ func init() {
 		"C02": {"chains", 30, 500, "crash images of chains crash->recover->append->crash; recovered state must equal one legal state exactly; non-trivial = distinct image whose tail file, before recovery, holds non-zero bytes beyond the point where a plain frame scan stops, or a torn (partial) subset of the in-flight batch", "c02_nontrivial"},
 		"C03": {"seal", 24, 500, "crash images recovered, then a fixed continuation (appends forcing rotation, truncations, stable set/get, clean reopen, append) must succeed and match; non-trivial = distinct image taken in rotation, inside Open, during a truncation, or with the tail file missing", "c03_nontrivial"},
 		"C04": {"trunc", 24, 500, "crash images of workloads rich in truncations; non-trivial = distinct image with a truncation in flight or acknowledged earlier", "trunc_images"},
-		"C13": {"mixed", 20, 400, "directory listing compared with committed metadata after every acknowledged call of the golden run and after Open on every crash image, plus online segment-ID rules at every CommitState/Create; non-trivial = distinct image holding a file not in (or lacking a file of) the committed metadata before Open", "c13_nontrivial"},
+		"C13": {"mixed", 20, 400, "directory listing compared with committed metadata after every acknowledged call of the golden run and after Open on every crash image, plus online segment-ID rules at every CommitState/Create; non-trivial = distinct image holding a file not in (or lacking a file of) the committed metadata before Open, plus reader-pinning scripts (a reader parked holding the old state while a head / tail / all truncation drops its segment: the files must be gone once DeleteRange returned and the reader finished)", "c13_nontrivial"},
 	}
 	for id, cfg := range cfgs {
 		id, cfg := id, cfg
@@ -77,6 +77,9 @@ func runCrash(c *evid.Ctx, id string, cfg crashCfg) {
 	}
 	close(jobs)
 	wg.Wait()
+	if id == "C13" {
+		c13Pinning(c)
+	}
 	c.Extra("behaviour_calibrated", crashsim.BehaviourUsed())
 	c.Extra("params", p)
 }
